@@ -1,7 +1,9 @@
 package actionlint
 
 import (
+	"errors"
 	"fmt"
+	"math/big"
 	"strconv"
 	"strings"
 )
@@ -140,6 +142,15 @@ func (p *ExprParser) parseNestedExpr() ExprNode {
 func (p *ExprParser) parseInt() ExprNode {
 	t := p.peek()
 	i, err := strconv.ParseInt(t.Value, 0, 64)
+	if errors.Is(err, strconv.ErrRange) {
+		// The literal is a valid number but too large for integer. Numbers are handled as floating point numbers
+		// on evaluating expressions
+		if f, ok := new(big.Float).SetString(t.Value); ok {
+			p.next() // eat int
+			v, _ := f.Float64()
+			return &FloatNode{v, t}
+		}
+	}
 	if err != nil {
 		p.errorf("parsing invalid integer literal %q: %s", t.Value, err)
 		return nil
@@ -153,7 +164,7 @@ func (p *ExprParser) parseInt() ExprNode {
 func (p *ExprParser) parseFloat() ExprNode {
 	t := p.peek()
 	f, err := strconv.ParseFloat(t.Value, 64)
-	if err != nil {
+	if err != nil && !errors.Is(err, strconv.ErrRange) { // On ErrRange, f is ±Inf or 0 and the literal itself is valid
 		p.errorf("parsing invalid float literal %q: %s", t.Value, err)
 		return nil
 	}
